@@ -527,7 +527,9 @@ class Job:
                 self._statepoint_requires_init = False
             self.statepoint.reset(new_statepoint)
 
-        self._project._register(self.id, new_statepoint)
+        # Register the state point the job actually has now: the reset above
+        # keeps existing values that compare equal to the new ones (1 vs 1.0).
+        self._project._register(self.id, self.statepoint())
 
     @property
     def sp(self):
